@@ -38,6 +38,29 @@ pub struct Snap {
     pub any: StatView,
     /// content start pointers (with provenance) of the chunks in `typed.fwd`
     pub content_ptrs: Vec<NonNull<u8>>,
+    pub iters: IterView,
+}
+
+impl Snap {
+    pub fn empty() -> Snap {
+        Snap { typed: Default::default(), any: Default::default(), content_ptrs: Vec::new(), iters: Default::default() }
+    }
+}
+
+/// The same chunk list read through the iterator API (chunk start addresses) and the typed statistics
+/// converted to the type-erased form.
+#[derive(Clone, Debug, Default)]
+pub struct IterView {
+    pub taken: bool,
+    pub t_s2b: Vec<usize>,
+    pub t_b2s: Vec<usize>,
+    pub a_s2b: Vec<usize>,
+    pub a_b2s: Vec<usize>,
+    pub t_next: Vec<usize>,
+    pub t_prev: Vec<usize>,
+    pub a_next: Vec<usize>,
+    pub a_prev: Vec<usize>,
+    pub converted: StatView,
 }
 
 const MAX_WALK: usize = 4096;
@@ -196,7 +219,27 @@ pub fn view_any(st: AnyStats<'_>) -> StatView {
 
 pub fn snap<A, S: BumpAllocatorSettings>(st: Stats<'_, A, S>, any: AnyStats<'_>) -> Snap {
     let (typed, content_ptrs) = view_typed(st);
-    Snap { typed, any: view_any(any), content_ptrs }
+    let anyv = view_any(any);
+    let mut iters = IterView::default();
+    // the library's own iterators first walk to one end of the list: only on a list the bounded walk found finite
+    if !typed.truncated && !anyv.truncated {
+        let cap = MAX_WALK + 1;
+        iters.taken = true;
+        iters.t_s2b = st.small_to_big().take(cap).map(|c| c.chunk_start().addr().get()).collect();
+        iters.t_b2s = st.big_to_small().take(cap).map(|c| c.chunk_start().addr().get()).collect();
+        iters.a_s2b = any.small_to_big().take(cap).map(|c| c.chunk_start().addr().get()).collect();
+        iters.a_b2s = any.big_to_small().take(cap).map(|c| c.chunk_start().addr().get()).collect();
+        if let Some(c) = st.current_chunk() {
+            iters.t_next = c.iter_next().take(cap).map(|c| c.chunk_start().addr().get()).collect();
+            iters.t_prev = c.iter_prev().take(cap).map(|c| c.chunk_start().addr().get()).collect();
+        }
+        if let Some(c) = any.current_chunk() {
+            iters.a_next = c.iter_next().take(cap).map(|c| c.chunk_start().addr().get()).collect();
+            iters.a_prev = c.iter_prev().take(cap).map(|c| c.chunk_start().addr().get()).collect();
+        }
+        iters.converted = view_any(AnyStats::from(st));
+    }
+    Snap { typed, any: anyv, content_ptrs, iters }
 }
 
 pub struct WalkCfg {
@@ -342,6 +385,32 @@ pub fn walk(s: &Snap, cfg: &WalkCfg, mon: Option<&MonState>) -> Vec<(String, Str
             if x != y {
                 bad(&format!("any_stats_differs:{name}"), format!("{name}: typed {x} any {y}"));
             }
+        }
+    }
+    // the iterator API and the typed -> type-erased conversion read the same list
+    let it = &s.iters;
+    if it.taken {
+        let fwd: Vec<usize> = t.fwd.iter().map(|c| c.chunk_start).collect();
+        let bwd: Vec<usize> = t.bwd.iter().map(|c| c.chunk_start).collect();
+        let ci = t.cur.and_then(|c| fwd.iter().position(|x| *x == c.chunk_start));
+        let after: Vec<usize> = ci.map_or(vec![], |i| fwd[i + 1..].to_vec());
+        let before: Vec<usize> = ci.map_or(vec![], |i| fwd[..i].iter().rev().copied().collect());
+        for (name, got, want) in [
+            ("small_to_big", &it.t_s2b, &fwd),
+            ("big_to_small", &it.t_b2s, &bwd),
+            ("any_small_to_big", &it.a_s2b, &fwd),
+            ("any_big_to_small", &it.a_b2s, &bwd),
+            ("iter_next", &it.t_next, &after),
+            ("iter_prev", &it.t_prev, &before),
+            ("any_iter_next", &it.a_next, &after),
+            ("any_iter_prev", &it.a_prev, &before),
+        ] {
+            if got != want {
+                bad(&format!("chunk_iterator_differs:{name}"), format!("{name} yields {got:x?}, the linked list reads {want:x?}"));
+            }
+        }
+        if it.converted != s.any {
+            bad("converted_stats_differ_from_any_stats", format!("AnyStats::from(stats) {:x?} vs any_stats() {:x?}", (it.converted.count, it.converted.size, it.converted.allocated), (s.any.count, s.any.size, s.any.allocated)));
         }
     }
     out
